@@ -11,6 +11,7 @@ import (
 	"regexp"
 	"runtime"
 	"strconv"
+	"strings"
 	"sync"
 	"sync/atomic"
 	"testing"
@@ -46,7 +47,32 @@ type c18Obs struct {
 
 var c18re = regexp.MustCompile(`job (\d+) failed`)
 
+// c18SameTextErr: the error of a failing job whose text is the same for every job (as the per-epoch search's "not found");
+// the job is identified through the value, not the text
+type c18SameTextErr struct{ job int }
+
+func (e *c18SameTextErr) Error() string { return "not found" }
+
+// c18jobOf maps an element of the returned error list back to the failing job (0 = not attributable)
+func c18jobOf(e error) int {
+	if e == nil {
+		return 0
+	}
+	var st *c18SameTextErr
+	if errors.As(e, &st) {
+		return st.job
+	}
+	if m := c18re.FindStringSubmatch(e.Error()); m != nil {
+		id, _ := strconv.Atoi(m[1])
+		return id
+	}
+	return 0
+}
+
 func c18run(c *c18Case, via string) c18Obs {
+	sameText := strings.HasSuffix(via, "/same-text-errors")
+	via = strings.TrimSuffix(via, "/same-text-errors")
+	defer func() {}()
 	o := c18Obs{Via: via, N: c.N, Limit: c.Limit, Outcome: c.Outcome, Order: c.Order, Expect: c.Expect, ErrJobs: []int{}, NotStarted: []int{}}
 	started := make([]chan struct{}, c.N+1)
 	release := make([]chan struct{}, c.N+1)
@@ -70,6 +96,9 @@ func c18run(c *c18Case, via string) c18Obs {
 			}
 			if c.Outcome[j-1] == "ok" {
 				return j, nil
+			}
+			if sameText {
+				return 0, &c18SameTextErr{job: j}
 			}
 			return 0, fmt.Errorf("job %d failed", j)
 		})
@@ -148,13 +177,7 @@ func c18run(c *c18Case, via string) c18Obs {
 		if errors.As(got.err, &es) {
 			o.Kind = "errs"
 			for _, e := range es {
-				id := 0
-				if e != nil {
-					if m := c18re.FindStringSubmatch(e.Error()); m != nil {
-						id, _ = strconv.Atoi(m[1])
-					}
-				}
-				o.ErrJobs = append(o.ErrJobs, id)
+				o.ErrJobs = append(o.ErrJobs, c18jobOf(e))
 			}
 		} else {
 			o.Kind, o.Detail = "other", got.err.Error()
@@ -176,7 +199,13 @@ func TestVerifC18(t *testing.T) {
 		if i%3 == 2 {
 			via = "JobGroup"
 		}
+		if i%4 == 1 {
+			via += "/same-text-errors" // failing jobs return distinct error values with one and the same text
+		}
 		o := c18run(&c, via)
+		if i%4 == 1 {
+			o.Via += "/same-text-errors"
+		}
 		o.Case = i + 1
 		out.Emit(o)
 	}
@@ -227,6 +256,9 @@ func TestVerifC18Stress(t *testing.T) {
 				if outcome[j-1] == "ok" {
 					return j, nil
 				}
+				if it%4 >= 2 {
+					return 0, &c18SameTextErr{job: j}
+				}
 				return 0, fmt.Errorf("job %d failed", j)
 			})
 		}
@@ -260,13 +292,7 @@ func TestVerifC18Stress(t *testing.T) {
 				if errors.As(err, &es) {
 					o.Kind = "errs"
 					for _, e := range es {
-						id := 0
-						if e != nil {
-							if m := c18re.FindStringSubmatch(e.Error()); m != nil {
-								id, _ = strconv.Atoi(m[1])
-							}
-						}
-						o.ErrJobs = append(o.ErrJobs, id)
+						o.ErrJobs = append(o.ErrJobs, c18jobOf(e))
 					}
 				} else {
 					o.Kind, o.Detail = "other", err.Error()
@@ -317,6 +343,59 @@ func TestVerifC18Search(t *testing.T) {
 	var eps []*loaded
 	for i, e := range []uint64{1, 2, 3} {
 		eps = append(eps, vBuildAndLoad(t, c10spec(e, int64(180+i)), false, cache))
+	}
+	// abandoned requests first: searches whose context is cancelled while they run must not take anything away from later
+	// ones (the live search afterwards has a context that stays live, as the property requires)
+	for _, conc := range []int{1, 2} {
+		multi := NewMultiEpoch(&Options{EpochSearchConcurrency: conc})
+		for _, l := range eps {
+			multi.AddEpoch(l.epoch.Epoch(), l.epoch)
+		}
+		var wg sync.WaitGroup
+		for g := 0; g < 8; g++ {
+			wg.Add(1)
+			go func(g int) {
+				defer wg.Done()
+				for i := 0; i < 150; i++ {
+					ctx, cancel := context.WithCancel(context.Background())
+					go func() {
+						for y := 0; y < (i+g)%40; y++ {
+							runtime.Gosched()
+						}
+						cancel()
+					}()
+					vt.Guard(func() { multi.findEpochNumberFromSignature(ctx, eps[i%3].built.Blocks[0].Txs[0].Sig) })
+					cancel()
+				}
+			}(g)
+		}
+		wg.Wait()
+		o := c18Obs{Case: 9000 + conc, Via: "findEpochNumberFromSignature/after-cancelled-requests", N: 3, Limit: conc, Outcome: []string{"fail", "fail", "ok"}, Order: []int{}, ErrJobs: []int{}, NotStarted: []int{}}
+		var got uint64
+		var err error
+		pch := make(chan string, 1)
+		go func() {
+			pch <- vt.Guard(func() {
+				got, err = multi.findEpochNumberFromSignature(context.Background(), eps[0].built.Blocks[0].Txs[0].Sig)
+			})
+		}()
+		select {
+		case p := <-pch:
+			switch {
+			case p != "":
+				o.Kind, o.Detail = "panic", p
+			case err == nil:
+				o.Kind, o.Val = "ok", 4-int(got)
+			default:
+				o.Kind, o.ErrJobs, o.Detail = "errs", []int{1, 2, 3}, err.Error()
+			}
+		case <-time.After(10 * time.Second):
+			o.Kind, o.Detail = "hang", "a search with a live context did not return within 10 s after 2400 abandoned searches"
+		}
+		out.Emit(o)
+		if o.Kind == "hang" {
+			return
+		}
 	}
 	k := 0
 	for _, conc := range []int{-1, 1, 2, 3} {
